@@ -624,6 +624,36 @@ fn op_name(op: Op) -> String {
 	}
 }
 
+/// "Everything in one chunk" is asked for with a huge buffer size: the consumer must see every item once, in one
+/// chunk, for stream lengths 0..=3 (free-running: the chunking does not depend on the completion order).
+fn huge_buffers(ctx: &Arc<Ctx>, rt: &tokio::runtime::Runtime) {
+	for size in [usize::MAX, usize::MAX / 2, 1usize << 60] {
+		for n in 0..=3u32 {
+			ctx.eval();
+			let items: Vec<(TileCoord3, Blob)> = (0..n).map(|i| (TileCoord3 { x: i, y: 0, z: 5 }, Blob::from(vec![i as u8]))).collect();
+			let seen = Arc::new(std::sync::Mutex::new(Vec::<Vec<u32>>::new()));
+			let s2 = seen.clone();
+			let r = crate::par::catch(|| {
+				rt.block_on(async move {
+					TileStream::from_vec(items).for_each_buffered(size, move |chunk| s2.lock().unwrap().push(chunk.iter().map(|(c, _)| c.x).collect())).await;
+				})
+			});
+			let case = json!({"kind": "huge buffer", "buffer_size": size.to_string(), "items": n});
+			match r {
+				Err(p) => ctx.violation(&format!("for_each_buffered panics at {}", crate::par::panic_site(&p)), &format!("buffer size {size}, {n} items: {p}"), case),
+				Ok(()) => {
+					let got = seen.lock().unwrap().clone();
+					let want: Vec<Vec<u32>> = if n == 0 { vec![] } else { vec![(0..n).collect()] };
+					if got != want {
+						ctx.violation("buffered consumer chunks wrong", &format!("buffer size {size}, {n} items: chunks {got:?}"), case);
+					}
+				}
+			}
+		}
+	}
+	ctx.outcome_n("huge buffer sizes x stream lengths 0..=3", 12);
+}
+
 pub fn run(ctx: Arc<Ctx>) {
 	ctx.rule(
 		"DFS over all decision sequences (Release(i) of a parked per-tile task | consumer Poll) of the real operator in a real multi-thread tokio runtime; \
@@ -646,6 +676,7 @@ pub fn run(ctx: Arc<Ctx>) {
 			}
 		}
 	}
+	huge_buffers(&ctx, &rt);
 	for size in [1usize, 2, 3] {
 		configs.push((Op::MapBuffered(size), 3, 2));
 		configs.push((Op::MapBuffered(size), 4, 3));
